@@ -59,6 +59,85 @@ mod harnesses {
         std::mem::forget(o);
     }
 
+    // ---- the FILTER coordinate of the slot (1 layer x 2 filters x {weight, bias}) ----
+    fn state_f(a: f32, b: f32, c: f32, d: f32) -> Vec<Vec<Vec<Tensor>>> {
+        vec![vec![vec![Tensor::single(vec![a]), Tensor::single(vec![b])], vec![Tensor::single(vec![c]), Tensor::single(vec![d])]]]
+    }
+    fn cells_f(s: &Vec<Vec<Vec<Tensor>>>) -> [f32; 4] { [cell(&s[0][0][0]), cell(&s[0][0][1]), cell(&s[0][1][0]), cell(&s[0][1][1])] }
+
+    // @harness c03_slots_rmsprop_filters props=C03 tier=quick kind=bounded flags="--no-overflow-checks" bound="1 layer x 2 filters x {weight,bias} singleton slots, each of the four slots in turn, centred RMSprop with momentum, concrete distinct state" what="RMSprop: velocity, centred gradient mean and buffer of every other (filter, bias) slot are untouched, and the slot's own three cells are the ones that change" timeout=1200
+    #[kani::proof]
+    #[kani::unwind(6)]
+    #[kani::stub(f32::powf, powf_sq)]
+    fn c03_slots_rmsprop_filters() {
+        // concrete, pairwise distinct state and every one of the four (filter, bias) slots in turn: the question is WHICH cells are
+        // touched, not float arithmetic (a symbolic slot makes CBMC mux sqrt / division over all cells: > 5 min)
+        let v0 = [1.0f32, 2.0, 3.0, 4.0];
+        let g0 = [0.5f32, 1.5, 2.5, 3.5];
+        let b0 = [0.25f32, 0.75, 1.25, 1.75];
+        let gr = 8.0f32;
+        let mut hit = 0;
+        while hit < 4 {
+            let (filter, bias) = (hit / 2, hit % 2 == 1);
+            let mut o = RMSprop { learning_rate: 0.5, alpha: 0.5, epsilon: 0.5, decay: None, momentum: Some(0.5), centered: true,
+                                  velocity: state_f(v0[0], v0[1], v0[2], v0[3]), gradient: state_f(g0[0], g0[1], g0[2], g0[3]), buffer: state_f(b0[0], b0[1], b0[2], b0[3]) };
+            let mut w = Tensor::single(vec![1.0]);
+            let mut g = Tensor::single(vec![gr]);
+            o.update(0, filter, bias, &mut w, &mut g);
+            let (v, gm, b) = (cells_f(&o.velocity), cells_f(&o.gradient), cells_f(&o.buffer));
+            let mut k = 0;
+            while k < 4 { if k != hit { assert!(v[k].to_bits() == v0[k].to_bits() && gm[k].to_bits() == g0[k].to_bits() && b[k].to_bits() == b0[k].to_bits()); } k += 1; }
+            // the slot's own centred mean follows the documented recurrence from ITS old value
+            assert!(gm[hit].to_bits() == (0.5f32 * g0[hit] + (1.0 - 0.5f32) * gr).to_bits());
+            assert!(v[hit] != v0[hit] && b[hit] != b0[hit]);
+            std::mem::forget(o);
+            hit += 1;
+        }
+        kani::cover!(hit == 4);
+    }
+
+    // @harness c03_slots_sgdm_filters props=C03 tier=quick kind=bounded flags="--no-overflow-checks" bound="1 layer x 2 filters x {weight,bias} singleton slots, symbolic slot" what="SGDM: the filter coordinate of the slot is respected" timeout=900
+    #[kani::proof]
+    #[kani::unwind(6)]
+    fn c03_slots_sgdm_filters() {
+        let s0 = [small(), small(), small(), small()];
+        let mut o = SGDM { learning_rate: 0.5, momentum: 0.5, dampening: 0.0, decay: None, velocity: state_f(s0[0], s0[1], s0[2], s0[3]) };
+        let filter: usize = kani::any(); kani::assume(filter < 2);
+        let bias: bool = kani::any();
+        let mut w = Tensor::single(vec![small()]);
+        let mut g = Tensor::single(vec![small()]);
+        o.update(0, filter, bias, 2, &mut w, &mut g);
+        let hit = filter * 2 + bias as usize;
+        let now = cells_f(&o.velocity);
+        let mut k = 0;
+        while k < 4 { if k != hit { assert!(now[k].to_bits() == s0[k].to_bits()); } k += 1; }
+        kani::cover!(now[hit] != s0[hit]);
+        std::mem::forget(o);
+    }
+
+    // @harness c03_slots_adam_filters props=C03 tier=thorough kind=bounded flags="--no-overflow-checks" bound="1 layer x 2 filters x {weight,bias} singleton slots, symbolic slot" what="Adam: the filter coordinate of the slot is respected" timeout=1200
+    #[kani::proof]
+    #[kani::unwind(6)]
+    #[kani::stub(f32::powf, powf_sq)]
+    #[kani::stub(f32::powi, powi_model)]
+    fn c03_slots_adam_filters() {
+        let m0 = [small(), small(), small(), small()];
+        let v0 = [small(), small(), small(), small()];
+        let mut o = Adam { learning_rate: 0.5, beta1: 0.5, beta2: 0.5, epsilon: 0.5, decay: None,
+                           momentum: state_f(m0[0], m0[1], m0[2], m0[3]), velocity: state_f(v0[0], v0[1], v0[2], v0[3]) };
+        let filter: usize = kani::any(); kani::assume(filter < 2);
+        let bias: bool = kani::any();
+        let mut w = Tensor::single(vec![small()]);
+        let mut g = Tensor::single(vec![small()]);
+        o.update(0, filter, bias, 2, &mut w, &mut g);
+        let hit = filter * 2 + bias as usize;
+        let (m, v) = (cells_f(&o.momentum), cells_f(&o.velocity));
+        let mut k = 0;
+        while k < 4 { if k != hit { assert!(m[k].to_bits() == m0[k].to_bits() && v[k].to_bits() == v0[k].to_bits()); } k += 1; }
+        kani::cover!(m[hit] != m0[hit]);
+        std::mem::forget(o);
+    }
+
     macro_rules! defaults_h {
         ($name:ident, $which:expr) => {
             #[kani::proof]
